@@ -359,6 +359,20 @@ theorem add_nodes {s s' : Snap} {n syn : Node} {f2o : SlotMap} {data : String} {
     subst hd
     exact ⟨n1, by simp⟩
 
+/-- the Boolean test `shapesUnique` evaluates is `List.Nodup` -/
+theorem nodupb_iff : ∀ (l : List Node), shapesUnique.nodup l = true ↔ l.Nodup
+  | [] => by simp [shapesUnique.nodup]
+  | a :: t => by
+    simp only [shapesUnique.nodup, Bool.and_eq_true, Bool.not_eq_true', decide_eq_false_iff_not, List.nodup_cons, nodupb_iff t]
+
+/-- `shapesUnique`, as the checker evaluates it, survives a modelled insertion -/
+theorem add_keeps_shapesUnique {s s' : Snap} {n syn : Node} {f2o : SlotMap} {data : String} {a : AppId}
+    (hok : AddOK s) (hu : shapesUnique s = true) (h : addNew s n f2o syn data = some (s', a)) : shapesUnique s' = true := by
+  unfold shapesUnique at hu ⊢
+  simp only at hu ⊢
+  rw [nodupb_iff] at hu ⊢
+  exact add_keeps_shapes_unique hok hu h
+
 /-! ## every sequence of modelled insertions -/
 
 theorem inserts_keep_old_class_inv {s s'' : Snap} (hok : AddOK s) (hi : Inserts s s'') {c : SClass} (hc : c ∈ s.classes)
